@@ -11,11 +11,12 @@ RECURSIVE AddFrom(_, _, _)
 AddFrom(a, b, i) == IF i = D THEN 0 ELSE ((Dig(a, i) + Dig(b, i)) % P) * (P ^ i) + AddFrom(a, b, i + 1)
 \* extension fields: operation tables are computed once from the definitions (constant-level), so that
 \* protocol-level operators above stay shallow (deep lazy nesting overflowed TLC's evaluator stack)
-AddTab == [a \in Elems |-> [b \in Elems |-> AddFrom(a, b, 0)]]
+\* (TLC evaluates constant definitions eagerly at start-up: no tables for prime fields)
+AddTab == IF D = 1 THEN <<>> ELSE [a \in Elems |-> [b \in Elems |-> AddFrom(a, b, 0)]]
 Add(a, b) == IF D = 1 THEN (a + b) % P ELSE AddTab[a][b]
 RECURSIVE NegFrom(_, _)
 NegFrom(a, i) == IF i = D THEN 0 ELSE ((P - Dig(a, i)) % P) * (P ^ i) + NegFrom(a, i + 1)
-NegTab == [a \in Elems |-> NegFrom(a, 0)]
+NegTab == IF D = 1 THEN <<>> ELSE [a \in Elems |-> NegFrom(a, 0)]
 Neg(a) == IF D = 1 THEN (P - a) % P ELSE NegTab[a]
 Sub(a, b) == Add(a, Neg(b))
 RECURSIVE ScaleFrom(_, _, _)
@@ -27,11 +28,15 @@ RedFrom(top, i) == IF i = D THEN 0 ELSE ((P - ((top * MODC[i + 1]) % P)) % P) * 
 MulX(a) == AddFrom((a % (P ^ (D - 1))) * P, RedFrom(Dig(a, D - 1), 0), 0)
 RECURSIVE MulH(_, _, _)
 MulH(a, b, i) == IF i = D THEN 0 ELSE AddFrom(MulX(MulH(a, b, i + 1)), Scale(a, Dig(b, i)), 0)
-MulTab == [a \in Elems |-> [b \in Elems |-> MulH(a, b, 0)]]
+MulTab == IF D = 1 THEN <<>> ELSE [a \in Elems |-> [b \in Elems |-> MulH(a, b, 0)]]
 Mul(a, b) == IF D = 1 THEN (a * b) % P ELSE MulTab[a][b]
-InvTab == [a \in 1..(Q - 1) |-> CHOOSE y \in 1..(Q - 1) : Mul(a, y) = 1]
-Inv(a) == InvTab[a]
-Div(a, b) == Mul(a, InvTab[b])
+InvTab == IF D = 1 THEN <<>> ELSE [a \in 1..(Q - 1) |-> CHOOSE y \in 1..(Q - 1) : Mul(a, y) = 1]
+\* prime fields: Fermat inverse a^(P-2) by square-and-multiply (no table: P may be several hundred)
+RECURSIVE PowP(_, _)
+PowP(a, n) == IF n = 0 THEN 1
+              ELSE LET h == PowP(a, n \div 2)  hh == (h * h) % P IN IF n % 2 = 1 THEN (hh * a) % P ELSE hh
+Inv(a) == IF D = 1 THEN PowP(a, P - 2) ELSE InvTab[a]
+Div(a, b) == Mul(a, Inv(b))
 RECURSIVE Pow(_, _)
 Pow(a, n) == IF n = 0 THEN 1 ELSE Mul(a, Pow(a, n - 1))
 \* embedding of an integer (mixing in integers = converting first): n mod P as a constant polynomial
@@ -39,10 +44,11 @@ Pow(a, n) == IF n = 0 THEN 1 ELSE Mul(a, Pow(a, n - 1))
 OfInt(n) == n % Q
 IsSqr(a) == \E b \in Elems : Mul(b, b) = a
 \* field axioms (sanity of this module for the configured constants)
-FieldAxioms ==
-  /\ \A a, b \in Elems : Mul(a, b) = Mul(b, a) /\ Add(a, b) = Add(b, a) /\ Add(a, b) \in Elems /\ Mul(a, b) \in Elems
-  /\ \A a \in Elems : Add(a, 0) = a /\ Mul(a, 1) = a /\ Add(a, Neg(a)) = 0
-  /\ \A a \in Elems \ {0} : \E y \in Elems : Mul(a, y) = 1
-  /\ \A a, b, c \in Elems : Mul(a, Add(b, c)) = Add(Mul(a, b), Mul(a, c))
-  /\ \A a, b, c \in Elems : Mul(Mul(a, b), c) = Mul(a, Mul(b, c)) /\ Add(Add(a, b), c) = Add(a, Add(b, c))
+\* (an operator with a parameter: TLC evaluates zero-arity constant definitions eagerly at start-up)
+FieldAxiomsOn(E) ==
+  /\ \A a, b \in E : Mul(a, b) = Mul(b, a) /\ Add(a, b) = Add(b, a) /\ Add(a, b) \in E /\ Mul(a, b) \in E
+  /\ \A a \in E : Add(a, 0) = a /\ Mul(a, 1) = a /\ Add(a, Neg(a)) = 0
+  /\ \A a \in E \ {0} : \E y \in E : Mul(a, y) = 1
+  /\ \A a, b, c \in E : Mul(a, Add(b, c)) = Add(Mul(a, b), Mul(a, c))
+  /\ \A a, b, c \in E : Mul(Mul(a, b), c) = Mul(a, Mul(b, c)) /\ Add(Add(a, b), c) = Add(a, Add(b, c))
 =======================================================================
